@@ -121,6 +121,7 @@ def check_config(cfg, w, rep):
 
     # ---- (f) a pre-allocated temp file never reaches publication longer than what was written ----
     check_preallocation(cfg, w, rep)
+    check_staging_is_sequential(cfg, w, rep)
 
     # ---- (g) what is published under an address is the data whose digest it is: the staged bytes and the digest input
     #      agree (C02 a: the digest is fed exactly what the sink accepted, every sink write is digested) and the rename
@@ -228,6 +229,48 @@ def check_close(cfg, w, rep, lf):
             rep.violation("e-async:%s" % key,
                           "`%s`: the close closure can report %s — success not tied to persist succeeding or to the destination existing" % (
                               short(lf.path), sorted(set(map(str, tied)))), loc=span_str(t.span), config=cfg, rule="e-failed-publication")
+
+
+def check_staging_is_sequential(cfg, w, rep):
+    """(f3) the staged file is the sequence of accepted writes, nothing else: (i) no repositioning of the staging file's
+    cursor (Seek::seek / rewind / seek_relative — a gap or an overlap would put bytes under the address that were never
+    digested in that order); (ii) a mapping, once made, stays until publication trims it: no function takes
+    `&mut Option<MmapMut>` and nothing take()s / replaces an Option<MmapMut> in place (dropping the mapping half-way lets
+    plain writes continue into the pre-sized file)."""
+    prog = w.prog
+    n_calls = 0
+    bad = 0
+    for body in prog.bodies:
+        for blk, t in body.calls():
+            if t.callee is None:
+                continue
+            n_calls += 1
+            p = t.callee.path
+            lf = prog.owner_fn(body)
+            if re.search(r"^std::io::Seek::(seek|rewind|seek_relative)$", p):
+                st = (t.callee.self_ty or "")
+                if "NamedTempFile" in st or "std::fs::File" in st:
+                    cls = w.inv.classify(w.sym.of_operand(body, t.args[0]))
+                    if "TempIn" in str(cls) or "NamedTempFile" in st:
+                        bad += 1
+                        rep.violation("f-seek:%s" % fn_key(lf), "`%s` repositions the cursor of the staging file (`%s`): the published file would no "
+                                      "longer be the sequence of bytes that were written and digested" % (short(lf.path), p.rsplit("::", 1)[-1]),
+                                      loc=span_str(t.span), config=cfg, rule="f-staging-sequential")
+            if re.search(r"^(std::option::Option::<T>::(take|replace|insert|get_or_insert|get_or_insert_with)|std::mem::(take|replace|swap))$", p):
+                if "write::MmapMut" in (t.callee.self_ty or "") + " ".join(t.callee.args or []):
+                    bad += 1
+                    rep.violation("f-unmap:%s" % fn_key(lf), "`%s` takes or replaces the writer's mapping in place (`%s`): plain writes would continue "
+                                  "into the pre-sized staging file" % (short(lf.path), p.rsplit("::", 1)[-1]), loc=span_str(t.span), config=cfg,
+                                  rule="f-staging-sequential")
+    for lf in prog.fns.values():
+        for ty in lf.outer.j.get("sig_inputs", []):
+            if re.search(r"&mut std::option::Option<content::write::MmapMut>", ty):
+                bad += 1
+                rep.violation("f-unmap-param:%s" % fn_key(lf), "`%s` receives the writer's `Option<MmapMut>` by mutable reference: it can drop the "
+                              "mapping before publication trims the pre-sized staging file" % short(lf.path), loc=lf.body.loc(), config=cfg,
+                              rule="f-staging-sequential")
+    if not bad:
+        rep.ob(cfg, "f-staging-sequential", "zero-count", "no seek on the staging file and no in-place take/replace of the mapping (%d call sites scanned)" % n_calls)
 
 
 def check_preallocation(cfg, w, rep):
